@@ -269,6 +269,30 @@ fn reopen_and_check(live: &mut Live, idx: Idx, exp: &Expectation, problems: &mut
     }
 }
 
+/// Like `setup`, but leaves the B-tree and BM25 indexes fragmented (six more
+/// documents added and flushed, four of them removed and flushed) so that a
+/// compaction really rewrites and deletes bucket objects.
+fn setup_fragmented(idx: Idx) -> (Live, SeqModel) {
+    let (live, mut model) = setup(idx, false);
+    let mut steps: Vec<Op> = (1..=6u8).map(|k| Op::Add(100 + k)).collect();
+    steps.push(Op::Flush);
+    for id in [3u64, 4, 6, 7] {
+        steps.push(Op::Remove(id));
+    }
+    steps.push(Op::Flush);
+    steps.push(Op::Update(2, 3));
+    for op in steps {
+        let out = util::block_on(exec_on(&live.fx.coll, &op)).unwrap();
+        assert!(out.is_ok(), "fragmenting setup {op:?} failed: {}", out.short());
+        model.apply(&op, &out);
+    }
+    (live, model)
+}
+
+fn wants_fragmentation(calls: &[&Call]) -> bool {
+    calls.iter().any(|c| matches!(c, Call::Op(Op::CompactBtree) | Call::Op(Op::CompactBm25)))
+}
+
 // ---------------------------------------------------------------------------
 // Part A: cancellation at every suspension point
 
@@ -279,7 +303,7 @@ struct CancelResult {
 }
 
 fn cancel_case(idx: Idx, call: &Call, dirty: bool, k: u32) -> CancelResult {
-    let (mut live, model) = setup(idx, dirty);
+    let (mut live, model) = if dirty && wants_fragmentation(&[call]) { setup_fragmented(idx) } else { setup(idx, dirty) };
     let coll = live.fx.coll.clone();
     let db = live.fx.db.clone();
     let pre = prefix_content(&live);
@@ -446,7 +470,7 @@ struct RaceResult {
 }
 
 fn race_case(idx: Idx, transition: &Call, ops: &[Call], ch: &mut Chooser) -> RaceResult {
-    let (mut live, model) = setup(idx, true);
+    let (mut live, model) = if wants_fragmentation(&ops.iter().collect::<Vec<_>>()) { setup_fragmented(idx) } else { setup(idx, true) };
     let coll = live.fx.coll.clone();
     let db = live.fx.db.clone();
     let next_id = coll.max_document_id() + 1;
